@@ -189,6 +189,7 @@ def work(pair):
     p = core.Part()
     states = set()
     bound = BOUND[core.TIER]
+    best = {}        # violation kind -> (rank, args): the execution with the fewest deviations is reported
 
     def run(ch):
         res = execute(ch, cshape, sshape, p, states)
@@ -198,21 +199,26 @@ def work(pair):
             kind, what, log, fn = res
             p.outcome("violation %s" % kind.split("|")[0])
             answers = [net.show(a) for i in fn.points for a in [fn.log[i][2]]]
-            p.violation("stacks|%s" % kind,
+            rank = (ch.deviations(), len(ch.choices), ch.choices)
+            if kind not in best or rank < best[kind][0]:
+                best[kind] = (rank, (
+                        "stacks|%s" % kind,
                         "c2s=%s s2c=%s order=%s answers=%s" % ("/".join(map(str, cshape)) or "-",
                                                                 "/".join(map(str, sshape)) or "-",
                                                                 "".join(x[0] for x in log) or "-", ",".join(answers) or "-"),
                         "TcpClientStack -> %s, TcpServerStack -> %s: %s" % (payloads(cshape, ALPHA), payloads(sshape, BETA), what),
                         dict(client_packets=[x.decode() for x in payloads(cshape, ALPHA)],
                              server_packets=[x.decode() for x in payloads(sshape, BETA)],
-                             service_order=log, choices=ch.choices, non_default_socket_answers=answers,
+                             service_order=log, choices=ch.choices, socket_answers_at_choice_points=answers,
                              double_log=fn.trace(40), what=what,
                              how="TcpServerStack(ha=('',7000)) and TcpClientStack(ha=('127.0.0.1',7000)) over mc.net doubles; "
-                                 "connect; transmit() the packets; then service the sides in the listed order"))
+                                 "connect; transmit() the packets; then service the sides in the listed order")))
         return res
 
     with core.watchdog(1500):
         st = core.dfs(run, bound=bound)
+    for kind in sorted(best):
+        p.violation(*best[kind][1])
     for h in states:
         p.keys.add(h.to_bytes(8, "little", signed=True))
     p.notes["dfs executions"] += st["executions"]
